@@ -86,6 +86,7 @@ def make_sim(case):
     sim.latencies = list(case.get("lat", []))
     if hasattr(sim, "coalesce"):
         sim.coalesce = list(case.get("coalesce", []))
+        sim.splits = [tuple(x) for x in case.get("splits", [])]
     return sim
 
 
@@ -134,6 +135,15 @@ def describe_response(r):
     return {"type": "NOT-A-RESPONSE:" + type(r).__name__, "raw": ["other", repr(r)[:80]]}
 
 
+def vandalise_answer(r):
+    """The caller edits the frame of an answer it received (frames are mutable objects): nobody else's business."""
+    try:
+        f = r.raw_value
+        f[7:0] = (~f.as_integer) & 0xFF
+    except Exception:  # noqa - no frame / read-only
+        pass
+
+
 # ----------------------------------------------------------------- callers ----
 def _sequence(sim, cspec, cmds, rec):
     from dali import sequences
@@ -142,12 +152,18 @@ def _sequence(sim, cspec, cmds, rec):
             if cspec.get("raise_at") == i:
                 raise ScriptedError("scripted failure at step %d" % i)
             if c["k"] == "sleep":
-                yield sequences.sleep(c["d"])
+                x = yield sequences.sleep(c["d"])
+                if x is not None:
+                    rec.setdefault("marker_got", []).append(describe_response(x))
             elif c["k"] == "progress":
-                yield sequences.progress(message="step %d" % i)
+                x = yield sequences.progress(message="step %d" % i)
+                if x is not None:
+                    rec.setdefault("marker_got", []).append(describe_response(x))
             else:
                 r = yield cmds[i]
                 rec["results"].append(describe_response(r))
+                if cspec.get("vandal"):
+                    vandalise_answer(r)
         if cspec.get("raise_at") == len(cspec["cmds"]):
             raise ScriptedError("scripted failure at the end")
         return "seq-done"
@@ -171,6 +187,8 @@ async def _caller(sim, cspec, cmds, rec):
             kw["exceptions"] = cspec["exceptions"]
         r = await d.send(cmds[0], **kw)
         rec["results"].append(describe_response(r))
+        if cspec.get("vandal"):
+            vandalise_answer(r)
     elif kind == "seq":
         rec["closed"] = False
         prog = []
@@ -191,6 +209,8 @@ async def _caller(sim, cspec, cmds, rec):
                         raise ScriptedError("scripted failure at step %d" % i)
                     r = await d.send(cmds[i], in_transaction=True)
                     rec["results"].append(describe_response(r))
+                    if cspec.get("vandal"):
+                        vandalise_answer(r)
     elif kind == "par":
         # several sends in flight at once inside one transaction (the Tridonic driver keeps up to two
         # commands outstanding at the gateway; answers are routed by sequence number)
@@ -271,7 +291,15 @@ def run(case, hooks=None):
                     tasks[arg].cancel()
                     recs[arg]["cancel_requested"] = True
             elif what == "inject":
-                sim.inject(make_report(drv, arg), at=sim.loop.time())
+                rep = make_report(drv, arg)
+                if arg.get("split") and drv not in HID and len(rep) > 1:
+                    # the frame reaches the host in two reads, `gap` seconds apart
+                    k, gap = arg["split"]
+                    k = 1 + (k - 1) % (len(rep) - 1)
+                    sim.inject(rep[:k], at=sim.loop.time())
+                    sim.inject(rep[k:], at=sim.loop.time() + gap)
+                else:
+                    sim.inject(rep, at=sim.loop.time())
             elif what == "lose":
                 sim.lose(notify=arg.get("notify", True), eof=arg.get("eof", False))
             elif what == "write_fails":
@@ -281,8 +309,14 @@ def run(case, hooks=None):
                     sim.loop.fire_reader(sim.gw.fd)
             elif what == "restore":
                 sim.restore()
+                if arg.get("renamed") and hasattr(sim.gw, "node"):
+                    sim.gw.node += 1          # USB re-enumeration: the device node has another number now
             elif what == "mute":
                 sim.gw.mute = True
+                if arg.get("cut", True):
+                    # silent from NOW on: what the gateway had not yet put on the line is never sent
+                    now = sim.loop.time()
+                    sim.gw.pending = [p for p in sim.gw.pending if p[0] <= now]
             elif what == "mute_mid":
                 # the gateway falls silent in the MIDDLE of its next packet: k bytes still arrive
                 sim.gw.mute_after_bytes = arg.get("bytes", 1)
@@ -334,6 +368,7 @@ def run(case, hooks=None):
             obs["traffic"] = list(sim.traffic)
             obs["opens"] = sim.gw.opens
         obs["coalesced_reads"] = getattr(sim, "coalesced", 0)
+        obs["split_reads"] = getattr(sim, "split_reads", 0)
         obs["_sim"] = sim
         if "inspect" in hooks:
             hooks["inspect"](sim, obs)
